@@ -300,8 +300,13 @@ def main(argv=None):
         "coverage": cov, "assumptions": list(getattr(mod, "ASSUMPTIONS", [])),
         "wall_s": round(wall, 2), "violations": len(reported),
     }
+    ev_problem = None
     if not a.only:
-        evidence.write(prop, ev)
+        try:
+            evidence.write(prop, ev)
+        except SystemExit:
+            # (e.g. zero states because every history violated)
+            ev_problem = "evidence file did not validate"
     print("%s tier=%s seed=%d shards=%d evaluations=%d transitions=%d "
           "states=%d nontrivial=%d outcome_classes=%d cap_hit=%s wall=%.1fs"
           % (prop, a.tier, seed, len(shards), tot["evaluations"],
@@ -315,6 +320,9 @@ def main(argv=None):
         shutil.rmtree(rundir, ignore_errors=True)
     if reported:
         raise SystemExit(1)
+    if ev_problem:
+        print("harness error:", ev_problem)
+        raise SystemExit(2)
     if vac:
         print("harness vacuous: outcome classes never observed: %s" % vac)
         raise SystemExit(2)
